@@ -93,6 +93,11 @@ pub struct Ctx {
     pub stdin: StdinPipe,
     pub stdout: StdoutPipe,
     pub next_rpc_id: u64,
+    /// RPC calls issued since the simulator last drained the events; beyond
+    /// RPC_STEP_CAP further calls park forever and the run is abandoned
+    /// (guards the simulator's memory against request storms).
+    pub rpc_calls_step: u64,
+    pub rpc_cap_hit: bool,
     pub rpc_waiters: HashMap<u64, tokio::sync::oneshot::Sender<SimReply>>,
     pub wall: WallClock,
     pub log_enabled: bool,
@@ -145,6 +150,8 @@ impl Ctx {
                 short_writes: 0,
             },
             next_rpc_id: 1,
+            rpc_calls_step: 0,
+            rpc_cap_hit: false,
             rpc_waiters: HashMap::new(),
             wall: WallClock {
                 base_ns: 1_700_000_000u128 * 1_000_000_000,
@@ -362,13 +369,25 @@ where
     let method = request.method().to_string();
     let params = serde_json::to_value(request).expect("request serialises");
     let rx = with(|c| {
+        c.rpc_calls_step += 1;
+        if c.rpc_calls_step > RPC_STEP_CAP {
+            c.rpc_cap_hit = true;
+            return None;
+        }
         let id = c.next_rpc_id;
         c.next_rpc_id += 1;
         let (tx, rx) = ::tokio::sync::oneshot::channel();
         c.rpc_waiters.insert(id, tx);
         c.push(PluginEvent::Rpc { id, method, params });
-        rx
+        Some(rx)
     });
+    let rx = match rx {
+        Some(rx) => rx,
+        None => {
+            ::std::future::pending::<()>().await;
+            unreachable!()
+        }
+    };
     match rx.await {
         Ok(SimReply::Result(v)) => serde_json::from_value::<R::Response>(v).map_err(|e| {
             crate::rpc::RpcError::Rpc(cln_rpc::RpcError {
@@ -397,6 +416,11 @@ where
         ))),
     }
 }
+
+/// More RPC calls than this between two drains of the event queue (one
+/// scheduler step) cannot be a reaction to simulator stimuli: every reply needs
+/// a step of its own.
+pub const RPC_STEP_CAP: u64 = 20_000;
 
 /// Simulator side: deliver a reply. Returns false if the waiter is gone.
 pub fn rpc_reply(id: u64, reply: SimReply) -> bool {
@@ -548,8 +572,15 @@ pub fn install_panic_hook() {
     }));
 }
 
+pub fn rpc_cap_hit() -> bool {
+    with(|c| c.rpc_cap_hit)
+}
+
 pub fn take_events() -> Vec<(u64, PluginEvent)> {
-    with(|c| ::std::mem::take(&mut c.events))
+    with(|c| {
+        c.rpc_calls_step = 0;
+        ::std::mem::take(&mut c.events)
+    })
 }
 
 pub fn push_event(ev: PluginEvent) {
